@@ -7387,7 +7387,10 @@ class TensorDictBase(MutableMapping):
         )
         keys_vals = tuple(zip(*items))
         if not keys_vals:
-            return (), ()
+            if sorting_keys is None:
+                return (), ()
+            # an empty tensordict is aligned / completed with the default like any other
+            keys_vals = ((), ())
         keys, vals = keys_vals
         if sorting_keys is None:
             return list(keys), list(vals)
